@@ -106,10 +106,11 @@ CHECKS = {
              "<n> children permuted, each with its wedge<->hash mirrored twin) is parsed and compared with an independent ElementTree walk of the same file "
              "(attributed-graph isomorphism incl. isotopes, charges, radicals, attachment points, hydrogen hints, bond types, hapto expansion, nested fragments), total charge / "
              "multiplicity, two parses under different np.random states, the same label asked again after the caller edited the first result, label -> fragment resolution, centre-level handedness inversion under mirroring, and an absolute "
-             "handedness oracle computed from the drawing alone for unambiguous centres.",
+             "handedness oracle computed from the drawing alone for unambiguous centres. A third leg writes NEW drawings as minimal CDXML (rings / chains with substituents, every node and bond attribute the parser reads, labels placed under their fragments) "
+             "and applies the same oracle; the 3-D clauses only to fragments with a single stereo mark (the quantifier names the bundled files and their variants).",
         design_ref="DESIGN.md section 5, C13",
         note="Atoms bonded to hapto centres excluded from handedness; labels drawn twice are ambiguous in the file and skipped under object permutation; "
-             "only bundled drawings and structure-preserving variants of them (no generator of new drawings).",
+             "stereo clauses asserted on bundled drawings, their structure-preserving variants, and single-mark new drawings.",
         technique="metamorphic testing (mirror / permutation / translation / renumbering) + differential testing against an independent parser",
     ),
     "C14": dict(
